@@ -11,8 +11,8 @@ echo "changed files: $(git -C $WT diff --stat | tail -1)"
 /verif/run_baseline.sh $WT | tail -1
 ( "$@" ) >$OUT/demo_with.log 2>&1; echo "demo with change: exit=$?"
 git -C $WT checkout -q go.work.sum 2>/dev/null
-git -C $WT stash -q
+git -C $WT diff > $OUT/.saved.diff; git -C $WT checkout -q -- .   # (no git stash: the stash is shared by all worktrees)
 ( "$@" ) >$OUT/demo_without.log 2>&1; echo "demo without change: exit=$?"
 git -C $WT checkout -q go.work.sum 2>/dev/null
-git -C $WT stash pop -q
+git -C $WT apply $OUT/.saved.diff; rm -f $OUT/.saved.diff
 git -C $WT status --short | head -5
